@@ -44,6 +44,20 @@ def smithyRootOf : List SmithyBodyRow → Option Bytes
 def payloadMembers (bs : List Binding) : List (List UInt8) :=
   (bs.filter fun b => b.loc == .payload || b.loc == .bodySelf).map (·.member)
 
+/-- the XML body statement of a `serialize_http`: the type written and whether the XML declaration goes in front
+    (`set_xml_body` on a payload member or on the output itself: yes; `set_xml_body_no_decl`: no) -/
+def _root_.S3V.Gen.BodyImpl.xmlOut : BodyImpl → Option (Ty × Bool)
+  | .xml ty _ => some (ty, true)
+  | .xmlSelf ty decl => some (ty, decl)
+  | _ => none
+
+/-- the values a root can carry (normal form): under a generated root every value of the schema in normal form; the
+    hand-written `GetBucketLocationOutput` root carries `None` or a non-empty constraint (`Some("")` is written like
+    `None`) -/
+def FitsDoc (X : Ext) : SerRoot → Sch → Val → Prop
+  | .location _ _, _, v => v = .struct [.absent] ∨ ∃ b : Bytes, b ≠ [] ∧ utf8Valid b = true ∧ v = .struct [.one (.str b)]
+  | _, s, v => Fits X s v
+
 theorem rows_of_match {rs : List BodyRow} {ss : List SmithyBodyRow} (h : rowsMatch rs ss = true) :
     (rs = [] ∧ ss = []) ∨ ∃ r s, rs = [r] ∧ ss = [s] ∧ r.member = s.member ∧ bodyMatch r.body s.body = true := by
   match rs, ss, h with
